@@ -347,7 +347,7 @@ func runCase(spec *caseSpec) *caseResult {
 			id    uint32
 			delta int64
 		}
-		var fins []uint32
+		var fins, rsts []uint32
 		var grants []grant
 		conn.Locked(func() {
 			var needAll int64
@@ -367,6 +367,10 @@ func runCase(spec *caseSpec) *caseResult {
 					d := need + 1<<20 - floor
 					if model.RecvAllowStream(s)+s.Recv+d <= spdycli.MaxWindow && d <= spdycli.MaxWindow {
 						grants = append(grants, grant{s.ID, d})
+					} else if need > 0 {
+						// the window cannot be opened without risking an overflow
+						// (the script played with huge values): give the stream up
+						rsts = append(rsts, s.ID)
 					}
 				}
 			}
@@ -384,6 +388,11 @@ func runCase(spec *caseSpec) *caseResult {
 		}
 		for _, g := range grants {
 			if conn.WindowUpdate(g.id, uint32(g.delta)) != nil {
+				break
+			}
+		}
+		for _, id := range rsts {
+			if conn.RstStream(id, spdycli.RstCancel) != nil {
 				break
 			}
 		}
